@@ -491,6 +491,66 @@ theorem err2_nonneg (l : List Pt) : 0 ≤ err2 l := by
       linarith
   · exact le_refl _
 
+/-! ## the whole fit clause against the NaN-free table
+
+The three theorems below do not mention the mask `update_linreg` computes (`usableRows`): the table handed to pewlib is
+related to the NaN-free table by `NanInsert` (NaN rows inserted anywhere, any number of them) and `List.Perm` (any
+order), and the result is compared with the specification evaluated on the NaN-free table alone: entry-by-entry
+weights (`specPts`), the textbook centred line, the squared weighted correlation, the residual variance. -/
+
+/-- any number of rows with NaN in either or both cells, inserted at any positions, in any order of the whole table,
+change nothing: the fit is the fit of the NaN-free table (generalises `fit_nan_interleave` from one inserted row to
+all, and composes it with `fit_perm`) -/
+theorem fit_nan_insert_perm (wt : Weighting) (clean rows rows' : List Row)
+    (hins : NanInsert clean rows) (hperm : rows'.Perm rows) :
+    updateLinreg wt rows' = updateLinreg wt clean := by
+  rw [fit_perm wt rows' rows hperm]
+  apply fit_nan_rows_irrelevant
+  rw [hins.usable_eq, hins.clean_usable]
+
+/-- "fewer than two usable points reset to the identity instead of failing", with "usable" stated on the table itself:
+whatever NaN rows surround fewer than two NaN-free rows, in whatever order -/
+theorem few_usable_identity (wt : Weighting) (clean rows rows' : List Row)
+    (hins : NanInsert clean rows) (hperm : rows'.Perm rows) (h : clean.length < 2) :
+    updateLinreg wt rows' = identityFit := by
+  rw [fit_nan_insert_perm wt clean rows rows' hins hperm]
+  apply few_points_identity
+  rw [hins.clean_usable]; exact h
+
+/-- The fit clause of the property in one statement.  For every NaN-free table `clean` whose specified weights are
+positive and which holds two distinct concentrations, every table `rows'` obtained from it by inserting NaN rows
+anywhere and reordering, and every supported weighting: the gradient and intercept `update_linreg` stores are the
+textbook weighted least-squares line of `clean`, no line has a smaller weighted residual sum, r² is the squared
+weighted correlation and lies in [0, 1] (where the responses are not constant), `error`² is the residual variance. -/
+theorem fit_is_specification (wt : Weighting) (clean rows rows' : List Row)
+    (hins : NanInsert clean rows) (hperm : rows'.Perm rows)
+    (hw : ∀ p ∈ specPts wt clean, 0 < p.w)
+    (hx : ∃ p ∈ specPts wt clean, ∃ q ∈ specPts wt clean, p.x ≠ q.x) :
+    (updateLinreg wt rows').gradient = specGradient (specPts wt clean) ∧
+    (updateLinreg wt rows').intercept = specIntercept (specPts wt clean) ∧
+    (∀ a b : Rat, cost (updateLinreg wt rows').gradient (updateLinreg wt rows').intercept (specPts wt clean)
+        ≤ cost a b (specPts wt clean)) ∧
+    (0 < Dy (specPts wt clean) →
+      (updateLinreg wt rows').rsq = some (some (specRsq (specPts wt clean))) ∧
+      0 ≤ specRsq (specPts wt clean) ∧ specRsq (specPts wt clean) ≤ 1) ∧
+    (updateLinreg wt rows').err2 = some (specErr2 (specPts wt clean)) := by
+  obtain ⟨p, hp, q, hq, hpq⟩ := hx
+  have hw0 : ∀ p ∈ specPts wt clean, 0 ≤ p.w := fun p hp => le_of_lt (hw p hp)
+  have hD : 0 < D (specPts wt clean) := D_pos_of _ hw0 p q hp hq (hw p hp) (hw q hq) hpq
+  have hS : Sw (specPts wt clean) ≠ 0 := ne_of_gt (Sw_pos_of_D_pos _ hw0 hD)
+  have hlen : ¬ (usableRows clean).length < 2 := by
+    rw [hins.clean_usable, ← specPts_length wt clean]
+    have := length_ge_two_of_ne hp hq (fun h => hpq (by rw [h]))
+    omega
+  rw [fit_nan_insert_perm wt clean rows rows' hins hperm, updateLinreg_eq, if_neg hlen,
+    fitPts_eq_specPts wt clean hins.clean_usable]
+  obtain ⟨hg, hc⟩ := fit_is_centred_form _ (ne_of_gt hD) hS
+  refine ⟨hg, hc, fun a b => optimal _ hw0 hD a b, fun hDy => ⟨?_, specRsq_bounds _ hw0 hD hDy⟩, ?_⟩
+  · show some (rsqMech _) = _
+    rw [rsq_is_squared_correlation _ hw0 hD hDy]
+  · show some (err2 _) = _
+    rw [err2_is_residual_variance _ (ne_of_gt hD) hS]
+
 /-! ## non-vacuity -/
 
 def exRows : List Row :=
@@ -530,6 +590,20 @@ example : exPts4.length = 4 ∧ D exPts4 ≠ 0 ∧ Sw exPts4 ≠ 0 ∧ err2 exPt
 example : (usableRows [⟨some 1, none, none⟩, ⟨some 2, some 3, none⟩]).length < 2 := by decide
 example : (⟨some (1/2), none, some 2⟩ : Row).x = none ∨ (⟨some (1/2), none, some 2⟩ : Row).y = none := Or.inr rfl
 example : calibrate 2 3 (some (2 * 5 + 3)) = some 5 := by decide +kernel
+
+-- fit_is_specification / fit_nan_insert_perm / few_usable_identity: the NaN-free table of `exRows`, `exRows` itself
+-- (one NaN row inserted) and a reordering of it
+def exClean : List Row := [⟨some 0, some 1, some 1⟩, ⟨some 1, some 2, some 3⟩, ⟨some 2, some 4, some 1⟩]
+example : NanInsert exClean exRows :=
+  .keep _ rfl rfl (.nan _ (Or.inr rfl) (.keep _ rfl rfl (.keep _ rfl rfl .nil)))
+example : (exRows.reverse).Perm exRows := List.reverse_perm _
+example : (∀ p ∈ specPts (.builtin ⟨false, .inv⟩) exClean, 0 < p.w) ∧
+    (∃ p ∈ specPts (.builtin ⟨false, .inv⟩) exClean, ∃ q ∈ specPts (.builtin ⟨false, .inv⟩) exClean, p.x ≠ q.x) ∧
+    0 < Dy (specPts (.builtin ⟨false, .inv⟩) exClean) ∧
+    specGradient (specPts (.builtin ⟨false, .inv⟩) exClean) = 10/7 ∧
+    (updateLinreg (.builtin ⟨false, .inv⟩) exRows.reverse).gradient = 10/7 := by decide +kernel
+example : NanInsert [⟨some 2, some 3, none⟩] [⟨some 1, none, none⟩, ⟨some 2, some 3, none⟩, ⟨none, none, none⟩] :=
+  .nan _ (Or.inr rfl) (.keep _ rfl rfl (.nan _ (Or.inl rfl) .nil))
 
 -- calibrate_fixed_point_iff / calibrate_unchanged_iff_identity: a line next to the identity moves data
 example : (1000001 / 1000000 : Rat) ≠ 0 ∧
